@@ -44,6 +44,8 @@ two equivalent forms the rules get to see, so soundness never depends on the ref
   S27 f"{a}\t{b}\n"       ->  str(a) + '\t' + str(b) + '\n'      an f-string without format specs that the reference function does not have
   S28 for i, x in enumerate(X, k)  ->  i = k; for x in X: ...; i += 1   where the reference loop over X binds only x (manual counter form)
   S29 (a1, a2) < (b1, b2) ->  a1 < b1 or (a1 == b1 and a2 < b2)      lexicographic comparison of tuple displays (also <=, >, >=), not in the reference
+  S30 if T: return   REST (to the end of the function)  ->  if not T: REST      a guard clause at function level with a bare return, when the reference
+                                                      function tests `not T` (and falls off its end)
   S12 a = ..; b = ..      ->  b = ..; a = ..          adjacent call-free assignments without data dependence are put in the
                                                       order the reference function has them in
 
@@ -608,6 +610,22 @@ def canonicalise(rel, module):
         c.ref_names = set(refnames_of(rel + '::' + lname))
         c.loaded = {x.id for x in ast.walk(fn) if isinstance(x, ast.Name) and isinstance(x.ctx, ast.Load)}
         c.generic_visit(fn)          # fn itself is a scope node: visit its children
+        # S30 guard clause with a bare return at function level
+        body = fn.body
+        for i_, st_ in enumerate(body):
+            if isinstance(st_, ast.If) and not st_.orelse and len(st_.body) == 1 and isinstance(st_.body[0], ast.Return) \
+                    and (st_.body[0].value is None or (isinstance(st_.body[0].value, ast.Constant) and st_.body[0].value.value is None)) \
+                    and U(st_.test) not in c.tests and U(_negate(st_.test)) in c.tests and i_ + 1 < len(body):
+                rest_ = body[i_ + 1:]
+                # the function must fall off its end (or end in a bare return) and REST must not return a value either
+                ok_ = not any(isinstance(x, ast.Return) and x.value is not None and not (isinstance(x.value, ast.Constant) and x.value.value is None)
+                              for r_ in rest_ for x in ast.walk(r_))
+                if ok_:
+                    st_.test = _negate(st_.test)
+                    st_.body = rest_
+                    fn.body = body[:i_ + 1]
+                    c.steps.append('S30 guard clause folded')
+                    break
         if c.steps:
             ast.fix_missing_locations(fn)
             done[lname] = c.steps
